@@ -1100,6 +1100,9 @@ func (l *writeLog) add(g *Gen, key, elemSort, addr, pattern string) {
 			pattern = "fresh"
 		} else if arr, ok := innerElemArr(addr); ok && !l.variant(arr) {
 			pattern = "elems:" + arr
+			if strings.HasPrefix(addr, "(Elem ") {
+				pattern = "elems0:" + arr // the element cells themselves, not fields inside elements
+			}
 		} else if sh, ok := addrShape(addr); ok {
 			pattern = "shape:" + sh
 		} else if strings.HasPrefix(addr, "(Fld ") {
@@ -1116,7 +1119,7 @@ func (l *writeLog) add(g *Gen, key, elemSort, addr, pattern string) {
 		}
 		addr = ""
 	}
-	if pattern != "" && strings.HasPrefix(pattern, "elems:") && l.variant(pattern) {
+	if pattern != "" && (strings.HasPrefix(pattern, "elems:") || strings.HasPrefix(pattern, "elems0:")) && l.variant(pattern) {
 		pattern = "shape:"
 	}
 	if os.Getenv("GOWP_DEBUG_WRITES") != "" {
@@ -1175,7 +1178,7 @@ func (g *Gen) havocWrites(hst, st *State, writes []writeRec, base string, preTop
 		whole := false
 		var shapes []string
 		fresh := false
-		var addrs, pats, flds []string
+		var addrs, pats, pats0, flds []string
 		for _, w := range ws {
 			switch {
 			case w.addr != "":
@@ -1186,6 +1189,8 @@ func (g *Gen) havocWrites(hst, st *State, writes []writeRec, base string, preTop
 				shapes = append(shapes, strings.TrimPrefix(w.pattern, "shape:"))
 			case strings.HasPrefix(w.pattern, "fld:"):
 				flds = append(flds, strings.TrimPrefix(w.pattern, "fld:"))
+			case strings.HasPrefix(w.pattern, "elems0:"):
+				pats0 = append(pats0, strings.TrimPrefix(w.pattern, "elems0:"))
 			case w.pattern != "":
 				pats = append(pats, strings.TrimPrefix(w.pattern, "elems:"))
 			default:
@@ -1200,7 +1205,11 @@ func (g *Gen) havocWrites(hst, st *State, writes []writeRec, base string, preTop
 				ds = append(ds, "(= r "+a+")")
 			}
 			for _, p := range pats {
-				ds = append(ds, "(= (elemArr r) "+p+")")
+				// (elements of the nil array do not exist: an index into a nil slice panics)
+				ds = append(ds, "(and (not (= "+p+" Nil)) (= (elemArr r) "+p+"))")
+			}
+			for _, p := range pats0 {
+				ds = append(ds, "(and ((_ is Elem) r) (= (ebase r) "+p+"))")
 			}
 			for _, sh := range shapes {
 				ds = append(ds, shapePred("r", sh))
@@ -1219,7 +1228,10 @@ func (g *Gen) havocWrites(hst, st *State, writes []writeRec, base string, preTop
 					ks = append(ks, "(= r "+a+")")
 				}
 				for _, p := range pats {
-					ks = append(ks, "(= (elemArr r) "+p+")")
+					ks = append(ks, "(and (not (= "+p+" Nil)) (= (elemArr r) "+p+"))")
+				}
+				for _, p := range pats0 {
+					ks = append(ks, "(and ((_ is Elem) r) (= (ebase r) "+p+"))")
 				}
 				ks = append(ks, "(> (rootOid r) allocBase)")
 				g.sc.Assume(fmt.Sprintf("(forall ((r Ref)) (! (or %s (= (select %s r) (select %s r))) :pattern ((select %s r))))",
